@@ -32,14 +32,6 @@ func init() {
 		fmt.Fprintf(&b, "def surnamesRespectVisibility : Bool := %v\n", !strings.Contains(surnamePage, "Ingsurname") && strings.Contains(surnamePage, "Timer"))
 		fmt.Fprintf(&b, "def placesRespectHide : Bool := %v\n", !livingPlace && oldPlace)
 		fmt.Fprintf(&b, "def hideLettersFromDead : Bool := %v\n", string(letters) == "t")
-		// page names: a hidden living person must not take the name of a namesake who gets a page
-		nsrc := fmt.Sprintf("0 @I1@ INDI\n1 NAME Same /Name/\n1 BIRT\n2 DATE 1 Jan %d\n0 @I2@ INDI\n1 NAME Same /Name/\n1 DEAT Y\n", year)
-		ndoc, err := gedcom.NewDocumentFromString(nsrc)
-		if err != nil {
-			panic(err)
-		}
-		deadPage := html.PageIndividual(ndoc, ndoc.Individuals()[1], html.LivingVisibilityHide, nil)
-		fmt.Fprintf(&b, "def keysSkipHidden : Bool := %v\n", deadPage == "same-name.html")
 		b.WriteString("end Gedcom.Generated.Living\n")
 		return b.String()
 	}
